@@ -232,7 +232,52 @@ def w_programs(job):
     return sh.result()
 
 
+def wide_pairs(rnd):
+    """(source, variant with the same AST): layouts whose lines are wider than 2**16 columns (ast.unparse never wraps, a
+    printer may join hundreds of statements with `;`), with bindings and reads right of that column and on the next line"""
+    out = []
+    n = 6200 + rnd.randrange(0, 2500)
+    table = 'KEYWORDS = [\n' + ''.join("    'kw%05d',\n" % i for i in range(n)) + ']\n'
+    tail = 'INDEX = {k: i for i, k in enumerate(KEYWORDS)}\nprint(INDEX, KEYWORDS, undefined_name)\n'
+    src = 'import os\n' + table + tail
+    out.append((src, ast.unparse(ast.parse(src)) + '\n', 'unparse-wide-literal'))
+    m = 700 + rnd.randrange(0, 400)
+    stmts = ['name_%04d = [%d, "padding padding padding padding padding padding padding"]' % (i, i) for i in range(m)]
+    body = '\n'.join(stmts) + '\n'
+    tail = 'def user():\n    return name_%04d, name_0000, name_%04d\nunused_%d = name_%04d\n' % (m - 1, m // 2, m, m - 1)
+    out.append((body + tail, '; '.join(stmts) + '\n' + tail, 'joined-wide-line'))
+    # the wide line inside a function body, reads of the last names on the line itself
+    inner = ['    loc_%04d = (%d, "padding padding padding padding padding padding padding padding")' % (i, i) for i in range(m)]
+    fsrc = 'def wide():\n' + '\n'.join(inner) + '\n    return loc_%04d, loc_0001\n' % (m - 1)
+    fvar = 'def wide():\n    ' + '; '.join(x.strip() for x in inner) + '; probe = loc_%04d\n    return loc_%04d, loc_0001\n' % (m - 1, m - 1)
+    fsrc2 = 'def wide():\n' + '\n'.join(inner) + '\n    probe = loc_%04d\n    return loc_%04d, loc_0001\n' % (m - 1, m - 1)
+    out.append((fsrc2, fvar, 'joined-wide-line-in-function'))
+    return out
+
+
+def w_wide(job):
+    seed, = job
+    sh = Shard()
+    rnd = random.Random(seed)
+    fn = suppview.filename_for(False)
+    for src, variant, label in wide_pairs(rnd):
+        if not layout.same_ast(src, variant):
+            sh.count('variant-discarded:different-ast:' + label)
+            continue
+        width = max(len(l) for l in variant.split('\n'))
+        sh.case(variant, True, {'origin': 'wide-line', 'variant': label, 'widest_line': width, 'text_head': variant[:120]})
+        sh.count('variants:' + label)
+        try:
+            d = compare_texts(src, variant, summary(src, fn), summary(variant, fn))
+        except Exception as e:
+            d = ('variant-crashes:%s' % type(e).__name__, 'analysis raised %r' % (e,))
+        if d:
+            sh.violation(d[0] + ':' + label, {'src': src, 'variant': variant, 'filename': fn}, d[1] + ' [widest line of the variant: %d columns]' % width)
+    return sh.result()
+
+
 def run(run):
+    run.pmap(w_wide, [(core.derive_seed(run.seed, 'c13w', i),) for i in range(run.pick(2, 8))])
     files = corpus.sample(core.derive_seed(run.seed, 'c13f'), run.pick(60, 1750), include_repo=True, max_bytes=run.pick(50000, None))
     run.pmap(w_files, [(s, core.derive_seed(run.seed, 'c13', i), run.pick(3, 10)) for i, s in enumerate(corpus.shards(files, 16))])
     run.pmap(w_programs, [(i, core.derive_seed(run.seed, 'c13p', i), run.pick(40, 1200), run.pick(3, 6)) for i in range(16)])
